@@ -361,7 +361,7 @@ fn test(case: &Case, stats: Option<&mut Stats>) -> Verdict {
         "query" => {
             let qs = String::from_utf8_lossy(&req.body).to_string();
             // the request line cannot carry arbitrary bytes
-            if !qs.bytes().all(|b| b.is_ascii_graphic()) || qs.contains('#') || qs.contains('?') {
+            if !qs.bytes().all(|b| b.is_ascii_graphic()) || qs.contains('#') || qs.contains('?') || format!("/x?{qs}").parse::<http::Uri>().is_err() {
                 return Verdict::Ok;
             }
             let q = block(actix_query::<QSearch>(&qs));
